@@ -38,13 +38,13 @@ Obs(snapshot) ==
   [x |-> x,
    msg |-> IF snapshot THEN task ELSE IF pc = "Classified" THEN task ELSE cl.task,
    success |-> IF snapshot THEN success ELSE IF pc = "Classified" THEN success ELSE cl.success,
-   nit |-> IF snapshot THEN nit + 1 ELSE nit, nfev |-> nfev, njev |-> njev,
+   nit |-> IF snapshot /\ Variant # "SnapNitOff" THEN nit + 1 ELSE nit, nfev |-> nfev, njev |-> njev,
    funOk |-> fAt = x, jacOk |-> gAt = x, pg |-> pg, leT |-> LeT(fx), fr |-> fx,
    prov |-> Pairs(mem), yOk |-> [i \in 1..(Len(mem) - 1) |-> TRUE],
    exact |-> [i \in 1..(Len(mem) - 1) |-> TRUE], yAp |-> [i \in 1..(Len(mem) - 1) |-> TRUE], syPos |-> TRUE,
    frozen |-> TRUE]
 
-LowerTrials == {i \in DOMAIN ls.trials : ls.trials[i].fr < fx}
+LowerTrials == {i \in DOMAIN ls.trials : Variant = "LSAnyTrial" \/ ls.trials[i].fr < fx}
 
 DStart == /\ pc = "Idle"
           /\ IF chain = 0 THEN \E c \in Configs : Start(c, 1)
